@@ -8,6 +8,7 @@ RULE = ('all total DFAs with <=2 states x <=2 symbols and 3 states x 1 symbol (t
         'duplicated (equivalent) states; dfa_minimize, dfa_quotient, dfa_hopfcroft (logging on for odd cases) under 4 (quick) / 16 (thorough) PYTHONHASHSEED values; input snapshot before/after. '
         'Relation: result valid, same alphabet, language-equivalent to the input (exact, verified dfa_equivb), pairwise distinguishable, state count between the MN class counts of reachable and of all states; '
         'structural layer: equal to the model result. Non-trivial = at least two states are merged and at least two classes remain; distinct by DFA text.')
+RULE += ' Added after the seeded rounds: the same object minimised, modified in place and minimised again; unusual state names.'
 CODES = {10: 'dfa_minimize raised/timed out', 11: 'dfa_minimize result invalid or alphabet changed', 12: 'dfa_minimize result not language-equivalent', 13: 'dfa_minimize result has equivalent states', 14: 'dfa_minimize state count out of bounds',
          20: 'dfa_quotient raised/timed out', 21: 'dfa_quotient result invalid or alphabet changed', 22: 'dfa_quotient result not language-equivalent', 23: 'dfa_quotient result has equivalent states', 24: 'dfa_quotient state count out of bounds',
          30: 'dfa_hopfcroft raised/timed out', 31: 'dfa_hopfcroft result invalid or alphabet changed', 32: 'dfa_hopfcroft result not language-equivalent', 33: 'dfa_hopfcroft result has equivalent states', 34: 'dfa_hopfcroft state count out of bounds',
@@ -39,6 +40,7 @@ def gen(rng, tier):
         Q = [c for q in base['Q'] for c in copies[q]]
         delta = [[c, a, rng.choice(copies[t])] for (q, a, t) in base['delta'] for c in copies[q]]
         ds.append({'Q': Q, 'Sigma': list(sigma), 'delta': delta, 'q0': copies[base['q0']][0], 'F': [c for q in base['F'] for c in copies[q]]})
+    ds = [G.retag(d, rng) if i % 6 == 2 and len(d['Q']) <= 6 else d for i, d in enumerate(ds)]
     cases = [{'D': d, 'log': i % 2 == 1} for i, d in enumerate(ds)]
     # the same object is minimised, modified in place (accepting set, transitions) and minimised again
     for i in range(100 if quick else 1500):
